@@ -170,7 +170,8 @@ fn check_map(ctx: &mut Ctx, pt: PT, be: BE, levels: &[Vec<u8>], dw: u32, dh: u32
     'a: for y in 0..dh {
         for x in 0..dw {
             let (a, b) = (outs[3].get(x, y, nc - 1), aout.get(x, y, 0));
-            let ok = if ck.is_int() { a == b } else { (a - b).abs() <= ulp32(a.abs().max(b.abs())) };
+            // floats: one ulp of the result plus the re-association noise of an f64 sum of terms of size <= alpha max
+            let ok = if ck.is_int() { a == b } else { (a - b).abs() <= ulp32(a.abs().max(b.abs())) + amax(ck) * (0.5f64).powi(41) };
             if !ok {
                 ctx.violation(format!("C07|{}|{:?}|{:?}|alpha channel differs from the plain one-channel resize", alg_class(o.alg), pt, be), || det(json!({"at": [x, y], "alpha_in_image": a, "alpha_alone": b})));
                 break 'a;
@@ -217,7 +218,7 @@ pub fn prop(tier: Tier, seed: u64) -> Prop {
 
     // ---- 1-D: lines are alpha masks (all of them)
     let algs: Vec<Alg> = FILT.iter().flat_map(|f| [Alg::Conv(*f), Alg::Interp(*f)]).collect();
-    let dims = vec![nmax as u64, nmax as u64, 4, algs.len() as u64];
+    let dims = vec![nmax as u64, nmax as u64, 6, algs.len() as u64];
     let (d1, a1, b1) = (dims.clone(), algs.clone(), bes.clone());
     p.spaces.push(Space::new("1-D: n_in x n_out x crop x filter x {Conv,Interp}; lines = ALL alpha masks over {0,max}^n_in (and {0,mid,max}^n_in for small n_in); 6 alpha types x back-ends x 2 orientations", product(&dims), move |idx, ctx| {
         let mut d = [0usize; 4];
